@@ -112,8 +112,8 @@ theorem map_congr_mem {α β} {f g : α → β} {l : List α} (h : ∀ x ∈ l, 
   List.map_congr_left h
 
 /-- both outcomes of AddAccessory preserve the invariant (stated over the mutated object `a2` and new counter `cnt`) -/
-theorem Inv_add_core (m : Container) (k : Nat) (a a2 : Acc) (cnt : Nat) (h : Inv m) (hk : m.pool[k]? = some a)
-    (ha2id : a2.id = if a.id = 0 then m.idCount else a.id) (ha2svcs : a2.svcs = a.updateIDs.svcs)
+theorem Inv_add_core (m : Container) (k : Nat) (a a2 : Acc) (cnt n : Nat) (hn : 1 ≤ n) (h : Inv m) (hk : m.pool[k]? = some a)
+    (ha2id : a2.id = if a.id = 0 then n else a.id) (ha2svcs : a2.svcs = a.updateIDs.svcs)
     (ha2cnt : a2.idCount = a.updateIDs.idCount) (hcnt' : m.idCount ≤ cnt) :
     Inv { m with pool := m.pool.set k a2, idCount := cnt } ∧
     (m.keys.contains a2.id = false →
@@ -124,7 +124,7 @@ theorem Inv_add_core (m : Container) (k : Nat) (a a2 : Acc) (cnt : Nat) (h : Inv
   have hcnt1 : 1 ≤ cnt := Nat.le_trans h.cnt hcnt'
   have ha2nz : a2.id ≠ 0 := by
     rw [ha2id]; split
-    · have := h.cnt; omega
+    · omega
     · assumption
   -- listed ids are unchanged by the mutation
   have key : ∀ j ∈ m.accs, idOfP (m.pool.set k a2) j = idOfP m.pool j := by
@@ -223,12 +223,57 @@ theorem autoId_svcs (a : Acc) (n : Nat) : (a.autoId n).svcs = a.svcs := by
 theorem autoId_idCount (a : Acc) (n : Nat) : (a.autoId n).idCount = a.idCount := by
   unfold Acc.autoId; split <;> rfl
 
+theorem nextFree_ge (keys : List Nat) : ∀ (fuel n : Nat), n ≤ nextFree keys fuel n := by
+  intro fuel
+  induction fuel with
+  | zero => intro n; exact Nat.le_refl n
+  | succ f ih =>
+    intro n
+    unfold nextFree
+    split
+    · exact Nat.le_trans (Nat.le_succ n) (ih (n + 1))
+    · exact Nat.le_refl n
+
+/-- with more fuel than keys from `n` on, the number found is free (pigeonhole) -/
+theorem nextFree_free (keys : List Nat) : ∀ (fuel n : Nat), (keys.filter (fun x => decide (n ≤ x))).length < fuel →
+    nextFree keys fuel n ∉ keys := by
+  intro fuel
+  induction fuel with
+  | zero => intro n h; omega
+  | succ f ih =>
+    intro n h
+    unfold nextFree
+    by_cases hc : keys.contains n = true
+    · simp only [hc, if_true]
+      apply ih
+      have hmem : n ∈ keys := List.contains_iff_mem.mp hc
+      have hsub : keys.filter (fun x => decide (n + 1 ≤ x)) = (keys.filter (fun x => decide (n ≤ x))).filter (fun x => decide (x ≠ n)) := by
+        rw [List.filter_filter]
+        apply List.filter_congr
+        intro x _
+        by_cases h1 : n + 1 ≤ x <;> by_cases h2 : n ≤ x <;> by_cases h3 : x = n <;> simp [h1, h2, h3] <;> omega
+      rw [hsub]
+      have hin : n ∈ keys.filter (fun x => decide (n ≤ x)) := List.mem_filter.mpr ⟨hmem, by simp⟩
+      have hlt : ((keys.filter (fun x => decide (n ≤ x))).filter (fun x => decide (x ≠ n))).length <
+          (keys.filter (fun x => decide (n ≤ x))).length :=
+        List.length_filter_lt_length_iff_exists.mpr ⟨n, hin, by simp⟩
+      omega
+    · simp only [hc]
+      intro hm
+      exact hc (List.contains_iff_mem.mpr hm)
+
+theorem nextFree_add_free (m : Container) : nextFree m.keys (m.keys.length + 1) m.idCount ∉ m.keys :=
+  nextFree_free m.keys _ _ (Nat.lt_succ_of_le (List.length_filter_le _ _))
+
 theorem Inv_add (m : Container) (k : Nat) (h : Inv m) : Inv (m.add k).1 := by
   unfold Container.add
   cases hk : m.pool[k]? with
   | none => simpa using h
   | some a =>
-    have core := Inv_add_core m k a (a.updateIDs.autoId m.idCount) (if a.id = 0 then m.idCount + 1 else m.idCount) h hk
+    have hge := nextFree_ge m.keys (m.keys.length + 1) m.idCount
+    have core := Inv_add_core m k a (a.updateIDs.autoId (nextFree m.keys (m.keys.length + 1) m.idCount))
+      (if a.id = 0 then nextFree m.keys (m.keys.length + 1) m.idCount + 1 else m.idCount)
+      (nextFree m.keys (m.keys.length + 1) m.idCount) (Nat.le_trans h.cnt hge) h hk
       (by rw [autoId_id, updateIDs_id]) (autoId_svcs _ _) (autoId_idCount _ _) (by split <;> omega)
     simp only []
     split
